@@ -31,7 +31,7 @@ func c19HashLengths(c *Ctx) {
 					if bad != "" {
 						continue
 					}
-					w := &pathWalker{env: newEnv(), lengths: true, maxSteps: 60000, assumeErrNil: true}
+					w := &pathWalker{env: newEnv(), lengths: true, maxSteps: 60000, assumeErrNil: true, opaque: map[string]bool{"bcryptHash": true}}
 					w.env.bind(pw, pl)
 					w.env.bind(salt, sl)
 					w.env.bind(rounds, r)
